@@ -34,7 +34,11 @@ class Renamed:
 
     def render(self, lalr=False, ascent=False, probes=0):
         t = self.base.render(lalr=lalr, ascent=ascent)
-        return re.sub(r"\b(c\d+|l|r|el\d+|er\d+)\b", lambda m: self.bindmap.get(m.group(1), m.group(1)), t)
+        # binding names only: never inside string literals (a terminal may be called "r" or "l")
+        parts = re.split(r'("(?:[^"\\]|\\.)*")', t)
+        for i in range(0, len(parts), 2):
+            parts[i] = re.sub(r"\b(c\d+|l|r|el\d+|er\d+)\b", lambda m: self.bindmap.get(m.group(1), m.group(1)), parts[i])
+        return "".join(parts)
 
 
 def unlabel(n, inv):
